@@ -258,8 +258,6 @@ DefChar(op, a) ==
   CASE op = "CharSpace"    -> <<32>>
     [] op = "CharNewline"  -> <<10>>
     [] op = "CharTab"      -> <<9>>
-    [] op = "CharMin"      -> <<0>>             \* FiChar is unsigned char on the bound platform
-    [] op = "CharMax"      -> <<255>>
     [] op = "CharIsDigit"  -> <<IsDigitC(a[1])>>
     [] op = "CharIsLetter" -> <<IsLetterC(a[1])>>
     [] op = "CharEQ"       -> <<a[1] = a[2]>>
@@ -366,7 +364,8 @@ DefConv(op, a) ==
          <<ScanVal(a[1], ToInt(a[2])), FromInt(ScanEnd(a[1], ToInt(a[2])))>>
 
 BoolOps == {"BoolFalse", "BoolTrue", "BoolNot", "BoolAnd", "BoolOr", "BoolEQ", "BoolNE"}
-CharOps == {"CharSpace", "CharNewline", "CharTab", "CharMin", "CharMax", "CharIsDigit", "CharIsLetter",
+\* CharMin/CharMax are platform constants (CHAR_MIN/CHAR_MAX cast to the unsigned FiChar): agreement only
+CharOps == {"CharSpace", "CharNewline", "CharTab", "CharIsDigit", "CharIsLetter",
             "CharEQ", "CharNE", "CharLT", "CharLE", "CharLower", "CharUpper", "CharOrd", "CharNum"}
 SIntOps == {"Byte0", "Byte1", "ByteMin", "ByteMax", "HInt0", "HInt1", "HIntMin", "HIntMax",
             "SInt0", "SInt1", "SIntMin", "SIntMax", "SIntIsZero", "SIntIsNeg", "SIntIsPos", "SIntIsEven",
@@ -402,6 +401,8 @@ Specified(op, a) ==
        [] op = "SIntToHInt" -> InS(a[1], HIntW)
        [] op = "BIntToSInt" -> InS(a[1], SIntW)
        [] op = "ArrToSInt"  -> InS(LitVal(a[1]), SIntW)
+       [] op = "ArrToBInt"  -> AllDigits(a[1], 10)          \* bintFrString reads decimal text only
+       [] op = "BIntShiftRem" -> FALSE                      \* not exported by Machine; no stated meaning
        [] op \in {"ScanSInt", "ScanBInt"} ->
             /\ ScanLen(a[1], ToInt(a[2])) > 0
             /\ (op = "ScanSInt" => InS(ScanVal(a[1], ToInt(a[2])), SIntW))
@@ -419,5 +420,16 @@ ResultTyped(op, a) ==
   Specified(op, a) =>
      LET r == Def(op, a)  s == Sig(op)
      IN \A i \in 1..Len(s.res) : HasType(r[i], s.res[i])
+
+---------------------------------------------------------------------------
+(* JSON encoding: integers as <<sign, d1, d2, ...>> (radix 2^11, little     *)
+(* endian), booleans and character codes natively, text as code sequences   *)
+ZJ(z) == <<IF z.neg THEN 1 ELSE 0>> \o z.mag
+Enc(v, t) == IF IsIntType(t) THEN ZJ(v) ELSE v
+EncSeq(vs, ts) == [i \in 1..Len(vs) |-> Enc(vs[i], ts[i])]
+ResTypes(o) == IF o \in {"FormatSInt", "FormatBInt"} THEN <<"SInt", "Str">> ELSE Sig(o).res
+EncRes(o, a) == IF Specified(o, a) THEN EncSeq(Def(o, a), ResTypes(o)) ELSE "Unspecified"
+DecInt(v) == Z(v[1] = 1, Tail(v))
+DecArg(v, t) == IF IsIntType(t) THEN DecInt(v) ELSE v
 
 =============================================================================
